@@ -1264,6 +1264,42 @@ pub static C20: PropDef = PropDef {
     prop_labels: &[(L_X1, "duplicate_keys_in_stream"), (L_X2, "claimed_hint_above_4096"), (L_X3, "element_error_inside_stream")],
 };
 
+// ---------------------------------------------------------------------------------------------
+// C19: rayon
+
+fn c19_strategy(tier: Tier) -> BoxedStrategy<Case> {
+    par_case_strategy(if tier == Tier::Quick { 14 } else { 30 })
+}
+
+fn c19_nontrivial(_c: &Case, o: &Outcome) -> bool {
+    o.labels & (L_X1 | L_X2) != 0
+}
+
+pub static C19: PropDef = PropDef {
+    id: "C19",
+    rule: "occupancy patterns built by fill / insert / remove-range / remove-stride histories on a HashMap, two \
+           HashSets and a HashTable (up to ~4096 buckets) of atomically tracked elements x parallel operation x pool \
+           size in {1,2,3,4,8,16,64}: par_iter / par_keys / par_values / par_iter_mut / par_values_mut, into_par_iter \
+           and par_drain fully consumed or stopped early (try_for_each, find_any), par_extend, from_par_iter, par_eq, \
+           parallel set operations and predicates vs mathematical results; plus EXPLICIT split trees through the hooks: \
+           RawIterRange::split leaves must partition the FULL bucket indices, and ParDrainProducer driven along a tree \
+           of split / fold-with-a-folder-that-fills-up / drop decisions. Oracle: delivered multiset == contents, drop \
+           count of every element == 1 (atomic per-serial registry), collection empty + valid + usable after par_drain, \
+           no block left. Non-trivial = an explicit tree with >= 3 leaves, or an early stop strictly inside",
+    level: "exploration",
+    cases_quick: 16_000,
+    cases_thorough: 400_000,
+    strategy: c19_strategy,
+    eval: eval_plain,
+    nontrivial: c19_nontrivial,
+    specs: hbv::specs::PAR_OPS,
+    assumptions: &[
+        "real rayon schedules are not controlled; the oracle is schedule independent and the controlled part is the explicit split tree",
+        "the hook driver for ParDrainProducer repeats the three set-up lines of RawParDrain::drive_unindexed (DESIGN section 4)",
+    ],
+    prop_labels: &[(L_X1, "early_stop_strictly_inside"), (L_X2, "explicit_tree_with_3_or_more_leaves"), (L_X3, "parallel_set_ops_on_incomparable_sets")],
+};
+
 pub fn all() -> Vec<&'static PropDef> {
-    vec![&C01, &C02, &C03, &C04, &C05, &C06, &C07, &C08, &C09, &C10, &C11, &C12, &C13, &C14, &C15, &C17, &C18, &C20]
+    vec![&C01, &C02, &C03, &C04, &C05, &C06, &C07, &C08, &C09, &C10, &C11, &C12, &C13, &C14, &C15, &C17, &C18, &C19, &C20]
 }
